@@ -7,7 +7,7 @@
 #  3. runs /verif/mutant.sh with the patch for <property>; records everything in meta.json
 set -u
 ID="$1"; PROP="$2"; WT="$3"; DEMO="$4"; PKG="$5"; RUN="$6"; TIER="${7:-quick}"; shift 6; [ $# -gt 0 ] && shift
-export GOFLAGS=-mod=mod GOPROXY=off GOSUMDB=off
+export GOFLAGS="-mod=mod ${SEED_GOFLAGS_EXTRA:-}" GOPROXY=off GOSUMDB=off
 D=/verif/seeded/$ID; mkdir -p "$D"
 cp "$WT-scratch/patch.diff" "$D/patch.diff" || exit 2
 cp "$WT-scratch/notes.md" "$D/notes.md" 2>/dev/null
